@@ -17,7 +17,8 @@ PROP = dict(
         level_note="Trusted: the harness's independent structural walker (verif/oracle/walker.go; every generated value must pass it, else the harness aborts), Go's runtime accounting (TotalAlloc, goroutine dumps). "
                    "Not covered: arrows/parquet readers beyond what auto-detection executes on non-parquet bytes; query *execution* (only compilation is in the property); the service load endpoint as such (its reader path is the non-seekable auto-detection exercised here).",
         technique="structure-aware mutation fuzzing with rapid (replayable cases, root-cause signatures, known-finding neutralisation) + native go test -fuzz targets FuzzAny/FuzzZNG/FuzzVNG/FuzzZSON/FuzzCompile over the same oracle",
-        tests=[dict(name="TestBytes", quick=(8, 1000), thorough=(16, 12000), gomaxprocs=2),
-               dict(name="TestQuery", quick=(4, 1200), thorough=(8, 15000), gomaxprocs=2),
+        env=dict(GOMAXPROCS="4"),
+        tests=[dict(name="TestBytes", quick=(8, 1000), thorough=(16, 8000), gomaxprocs=2),
+               dict(name="TestQuery", quick=(4, 1200), thorough=(8, 10000), gomaxprocs=2),
                dict(name="TestNativeFuzz", quick=(1, 1), thorough=(5, 1), shrinktime="1s")],
 )
